@@ -14,6 +14,8 @@ if os.path.realpath(repo) == "/repo" and os.environ.get("VERIF_SELFTEST", "1") !
         m = json.load(open(d))
         if m.get("property") == pid:
             seeded.append("seeded/" + os.path.basename(os.path.dirname(d)))
+    # the behaviour-preserving changes written for this property by independent authors: must stay silent
+    seeded += ["refactors/" + os.path.basename(os.path.dirname(d)) for d in sorted(glob.glob(os.path.join(VERIF, "refactors/%s-*/patch.diff" % pid)))]
     import tempfile
     tmpj = tempfile.mktemp(suffix=".json", dir=os.path.join(VERIF, "out"))
     r = subprocess.run([sys.executable, os.path.join(VERIF, "bin/selftest.py"), "--names", ",".join(names + seeded), "--jobs", "8", "--seeded", "--json", tmpj],
